@@ -71,6 +71,7 @@ def shard(args):
             continue
         gens = [families.single_edits(base, W), families.iban_lengths(base),
                 families.iban_prefixes(base), families.iban_checkpairs(base)]
+        gens.append(families.subst_rechecked(base))
         if filler == "distinct":
             gens.append(families.ws_padding(base))
             gens.append(families.token_overlays(base, country))
